@@ -43,7 +43,8 @@ def tables():
         sys.path[:] = old
         shutil.rmtree(base, ignore_errors=True)
 
-    return [
+    sites = walk_sites()
+    return walk_rows(sites) + [
         f"def deriveAbsCached : Bool := {lbool(cached)}",
         f"def deriveAbsCacheKey : List String := {llist(params)}",
         f"def deriveAbsReadsCurrentFile : Bool := {lbool(reads_current_file)}",
@@ -53,4 +54,72 @@ def tables():
         f"def clashWinner : String := {lstr(str(both.relative_to(a.resolve())))}",
         f"def emptyNameFound : Bool := {lbool(empty is not None)}",
         f"def emptyNameIsStdlib : Bool := {lbool(bool(U.is_in_stdlib('')))}",
+    ]
+
+
+def walk_sites():
+    """Where `Config().state.current_file` is set and where another file's root context is compiled
+    (static scan of the package under test): the call sites of `enter_file`, and for every call of
+    `compile_root_context` / `__parse_and_analyse_file_impl` whether it sits lexically inside a
+    `with enter_file(...)` block of its function."""
+    import ast
+    import inspect
+    from pathlib import Path
+
+    import rattr
+    from rattr.config import state as S
+    from rattr.models.context import _root_context as RC
+
+    root = Path(rattr.__file__).resolve().parent
+    enter_sites, compile_sites = [], []
+
+    def qual(stack):
+        return ".".join(stack)
+
+    def is_enter_with(node):
+        return isinstance(node, (ast.With, ast.AsyncWith)) and any(
+            isinstance(i.context_expr, ast.Call) and getattr(i.context_expr.func, "id", getattr(i.context_expr.func, "attr", None)) == "enter_file"
+            for i in node.items)
+
+    def walk(node, stack, inside, rel):
+        for child in ast.iter_child_nodes(node):
+            if isinstance(child, (ast.FunctionDef, ast.AsyncFunctionDef, ast.ClassDef)):
+                walk(child, stack + [child.name], False if not isinstance(child, ast.ClassDef) else inside, rel)
+                continue
+            ins = inside
+            if is_enter_with(child):
+                enter_sites.append(f"{rel}::{qual(stack)}")
+                ins = True
+            if isinstance(child, ast.Call):
+                name = getattr(child.func, "id", getattr(child.func, "attr", None))
+                if name in ("compile_root_context", "__parse_and_analyse_file_impl"):
+                    compile_sites.append((f"{rel}::{qual(stack)}::{name}", ins))
+            walk(child, stack, ins, rel)
+
+    for f in sorted(root.rglob("*.py")):
+        rel = "rattr/" + str(f.relative_to(root))
+        try:
+            tree = ast.parse(f.read_text())
+        except SyntaxError:
+            continue
+        walk(tree, [], False, rel)
+
+    src = inspect.getsource(S.enter_file)
+    restores_on_exception = "finally" in src
+    readers = []
+    for name in ("visit_relative_import", "visit_starred_relative_import"):
+        fn = getattr(RC.RootContextBuilder, name)
+        readers.append("current_file" in inspect.getsource(fn) and "node" in inspect.signature(fn).parameters
+                       and len(inspect.signature(fn).parameters) == 2)
+    return {"enter": sorted(set(enter_sites)), "compile": sorted(set(compile_sites)),
+            "finally": restores_on_exception, "readers": all(readers)}
+
+
+def walk_rows(sites):
+    pair = lambda p: "(" + lstr(p[0]) + ", " + lbool(p[1]) + ")"
+    return [
+        f"def enterFileSites : List String := {llist(sites['enter'])}",
+        f"def compileSites : List (String × Bool) := {llist(sites['compile'], pair)}",
+        f"def enterFileRestoresOnException : Bool := {lbool(sites['finally'])}",
+        f"def relVisitorsReadCurrentFileOnly : Bool := {lbool(sites['readers'])}",
     ]
